@@ -2,9 +2,12 @@
    Statements only, closed by `exact`; proofs live in rt/ServerThm.v.
 
    Model: rt/ServerM.v (DetachedServer tables + handlers of bqskit/runtime/detached.py).
-   `run false` = the code as it is, `run true` = the code with fixes/D4.patch applied; which
-   of the two the implementation corresponds to is determined on every check by the
-   co-simulation of harness/props/c13.py.  An exception that reaches ServerBase.run
+   `run Cur` = the code before fixes/D4.patch, `run (Fix false)` = the code with fixes/D4.patch
+   (commit 1a66c34), `run (Fix true)` = additionally fixes/C13-D15.patch (a cancelled task is removed
+   from tasks / mailbox_to_task_dict too, so late ERROR / LOG messages for it are dropped; in the
+   specification `sstep true` the cancelled task is forgotten at once).  Which of the three the
+   implementation corresponds to is determined on every check by the co-simulation of
+   harness/props/c13.py.  The theorems hold for both repaired variants (`forall dc`).  An exception that reaches ServerBase.run
    (=> handle_system_error + shutdown of the whole runtime) is the output OCrash. *)
 From Coq Require Import List Arith Bool.
 Import ListNotations.
@@ -17,48 +20,48 @@ From BQ Require Import rt.ServerM rt.ServerThm rt.ServerCur.
    mailbox_to_task_dict[mb] = the task of mb;  mailboxes[mb] exists iff that task is Running
    (result None, client_waiting as in the spec) or Done v (result v);  clients[c] exists iff c is
    connected and is the set of c's Running/Done ids;  closed connections are never `connected`. *)
-Theorem C13_tables_inv : forall es, wf_run spec0 es = true ->
-  Inv (fst (run true init es)) (fst (srun spec0 es)).
+Theorem C13_tables_inv : forall dc es, wf_run dc spec0 es = true ->
+  Inv (fst (run (Fix dc) init es)) (fst (srun dc spec0 es)).
 Proof. exact tables_inv. Qed.
 
 (* -------------------------------------------------------------------- refinement *)
 (* every answer of every event equals the specification's answer, no handler raises, and the
    server is still running afterwards *)
-Theorem C13_requests_refine : forall es, wf_run spec0 es = true ->
-  map answers (snd (run true init es)) = snd (srun spec0 es)
-  /\ ~ In OCrash (concat (snd (run true init es)))
-  /\ up (fst (run true init es)) = true.
+Theorem C13_requests_refine : forall dc es, wf_run dc spec0 es = true ->
+  map answers (snd (run (Fix dc) init es)) = snd (srun dc spec0 es)
+  /\ ~ In OCrash (concat (snd (run (Fix dc) init es)))
+  /\ up (fst (run (Fix dc) init es)) = true.
 Proof. exact requests_refine. Qed.
 
-(* D4: the same statement is FALSE for the code as it is: status after the result was fetched *)
-Definition C13_requests_refine_current_full : Prop := forall es, wf_run spec0 es = true ->
-  map answers (snd (run false init es)) = snd (srun spec0 es)
-  /\ ~ In OCrash (concat (snd (run false init es))).
+(* D4: the same statement is FALSE for the code before fixes/D4.patch: status after the result was fetched *)
+Definition C13_requests_refine_current_full : Prop := forall es, wf_run false spec0 es = true ->
+  map answers (snd (run Cur init es)) = snd (srun false spec0 es)
+  /\ ~ In OCrash (concat (snd (run Cur init es))).
 
 Theorem C13_requests_refine_refuted :
-  exists es, wf_run spec0 es = true /\ In OCrash (concat (snd (run false init es))).
+  exists es, (forall dc, wf_run dc spec0 es = true) /\ In OCrash (concat (snd (run Cur init es))).
 Proof.
   exists [Connect 0; Submit 0 0; Result 0 7; Request 0 0; Status 0 0].
-  split; vm_compute; tauto.
+  split; [intros []; vm_compute; reflexivity|vm_compute; tauto].
 Qed.
 
-(* What does hold for the code as it is: on every well-formed history in which status / cancel name
-   only open tasks of the requesting client (`d4_free`; result requests for any id, disconnects and
-   RESULT / ERROR / LOG from below are unrestricted) it behaves exactly like the repaired code - same
+(* What does hold for the code before the patch: on every well-formed history in which status / cancel
+   name only open tasks of the requesting client (`d4_free`; result requests for any id, disconnects and
+   RESULT / ERROR / LOG from below are unrestricted) it behaves exactly like the code with D4.patch - same
    states, same outputs - hence answers as the specification says, never raises, keeps the invariant. *)
-Theorem C13_requests_refine_partial : forall es, wf_run spec0 es = true -> d4_free spec0 es = true ->
-  run false init es = run true init es
-  /\ map answers (snd (run false init es)) = snd (srun spec0 es)
-  /\ ~ In OCrash (concat (snd (run false init es)))
-  /\ Inv (fst (run false init es)) (fst (srun spec0 es)).
+Theorem C13_requests_refine_partial : forall es, wf_run false spec0 es = true -> d4_free spec0 es = true ->
+  run Cur init es = run (Fix false) init es
+  /\ map answers (snd (run Cur init es)) = snd (srun false spec0 es)
+  /\ ~ In OCrash (concat (snd (run Cur init es)))
+  /\ Inv (fst (run Cur init es)) (fst (srun false spec0 es)).
 Proof. exact current_refines_partial. Qed.
 
 (* ... and the crash takes every other client's work with it: client 1 never gets an answer again *)
 Theorem C13_other_clients_lose_work_refuted :
-  exists es, wf_run spec0 es = true
-    /\ snd (srun spec0 es) <> map answers (snd (run false init es))
-    /\ last (snd (srun spec0 es)) [] = [OResult 1 3]
-    /\ last (snd (run false init es)) [OCrash] = [].
+  exists es, wf_run false spec0 es = true
+    /\ snd (srun false spec0 es) <> map answers (snd (run Cur init es))
+    /\ last (snd (srun false spec0 es)) [] = [OResult 1 3]
+    /\ last (snd (run Cur init es)) [OCrash] = [].
 Proof.
   exists [Connect 0; Connect 1; Submit 1 5; Submit 0 0; Result 1 7; Request 0 0; Cancel 0 0; Result 0 3; Request 1 5].
   vm_compute. repeat split; congruence.
@@ -70,11 +73,11 @@ Qed.
    `unknown` answer, every answer goes to c only, and whatever the server holds for every other
    client (its set of open ids, its tasks entries, their mailbox_to_task and mailbox entries) is the
    same before and after. *)
-Theorem C13_isolation : forall es e c t, wf_run spec0 (es ++ [e]) = true -> is_request e c t ->
-  own_open (fst (srun spec0 es)) c t = false ->
-  answers (snd (step true (fst (run true init es)) e)) = unknown_answer e
-  /\ (forall o, In o (answers (snd (step true (fst (run true init es)) e))) -> dest o = Some c)
-  /\ untouched c (fst (run true init es)) (fst (step true (fst (run true init es)) e)).
+Theorem C13_isolation : forall dc es e c t, wf_run dc spec0 (es ++ [e]) = true -> is_request e c t ->
+  own_open (fst (srun dc spec0 es)) c t = false ->
+  answers (snd (step (Fix dc) (fst (run (Fix dc) init es)) e)) = unknown_answer e
+  /\ (forall o, In o (answers (snd (step (Fix dc) (fst (run (Fix dc) init es)) e))) -> dest o = Some c)
+  /\ untouched c (fst (run (Fix dc) init es)) (fst (step (Fix dc) (fst (run (Fix dc) init es)) e)).
 Proof. exact isolation. Qed.
 
 (* another client's id is such an id *)
@@ -83,12 +86,12 @@ Proof.
   intros. unfold own_open. apply Nat.eqb_neq in H. rewrite H. apply andb_false_r.
 Qed.
 
-(* the code as it is: client 1 cancels client 0's running task; the acknowledgement goes to client 0 *)
+(* the code before the patch: client 1 cancels client 0's running task; the acknowledgement goes to client 0 *)
 Theorem C13_isolation_refuted :
-  exists es e c t, wf_run spec0 (es ++ [e]) = true /\ is_request e c t
-    /\ owner (fst (srun spec0 es)) t <> c
-    /\ answers (snd (step false (fst (run false init es)) e)) <> unknown_answer e
-    /\ get 0 (clients (fst (run false init es))) <> get 0 (clients (fst (step false (fst (run false init es)) e))).
+  exists es e c t, wf_run false spec0 (es ++ [e]) = true /\ is_request e c t
+    /\ owner (fst (srun false spec0 es)) t <> c
+    /\ answers (snd (step Cur (fst (run Cur init es)) e)) <> unknown_answer e
+    /\ get 0 (clients (fst (run Cur init es))) <> get 0 (clients (fst (step Cur (fst (run Cur init es)) e))).
 Proof.
   exists [Connect 0; Connect 1; Submit 0 0], (Cancel 1 0), 1, 0.
   unfold is_request. vm_compute. repeat split; try tauto; congruence.
@@ -99,40 +102,49 @@ Qed.
    turned into a result), and the only output is ERROR m to the connection stored in `tasks` for the
    compilation id mailbox_to_task_dict[mb] - which is the connection that submitted it, still
    connected; for a mailbox that is not (or no longer) known there is no output. *)
-Theorem C13_error_forwarded : forall es mb m, wf_run spec0 es = true ->
-  step true (fst (run true init es)) (Error mb m) =
-    (fst (run true init es),
-     match get mb (m2t (fst (run true init es))) with
-     | Some t => match get t (tasks (fst (run true init es))) with
+Theorem C13_error_forwarded : forall dc es mb m, wf_run dc spec0 es = true ->
+  step (Fix dc) (fst (run (Fix dc) init es)) (Error mb m) =
+    (fst (run (Fix dc) init es),
+     match get mb (m2t (fst (run (Fix dc) init es))) with
+     | Some t => match get t (tasks (fst (run (Fix dc) init es))) with
                  | Some (_, c) => [OError c m]
                  | None => [] end
      | None => [] end)
-  /\ (forall t, get mb (m2t (fst (run true init es))) = Some t ->
-        get t (tasks (fst (run true init es))) = Some (mb, owner (fst (srun spec0 es)) t)
-        /\ known (st (fst (srun spec0 es)) t) = true
-        /\ cst (fst (srun spec0 es)) (owner (fst (srun spec0 es)) t) = CConnected).
+  /\ (forall t, get mb (m2t (fst (run (Fix dc) init es))) = Some t ->
+        get t (tasks (fst (run (Fix dc) init es))) = Some (mb, owner (fst (srun dc spec0 es)) t)
+        /\ known (st (fst (srun dc spec0 es)) t) = true
+        /\ cst (fst (srun dc spec0 es)) (owner (fst (srun dc spec0 es)) t) = CConnected).
 Proof. exact error_forwarded. Qed.
 
 (* never a wrong result: a RESULT answer to c carries the value of a RESULT message from below for
    a task that c submitted - either arriving now while c waits, or stored earlier (TDone v) *)
-Theorem C13_result_provenance : forall es e c v, wf_run spec0 (es ++ [e]) = true ->
-  In (OResult c v) (snd (step true (fst (run true init es)) e)) ->
-  (exists mb t, e = Result mb v /\ tom (fst (srun spec0 es)) mb = Some t
-                /\ owner (fst (srun spec0 es)) t = c /\ st (fst (srun spec0 es)) t = TRunning true)
-  \/ (exists t, e = Request c t /\ owner (fst (srun spec0 es)) t = c /\ st (fst (srun spec0 es)) t = TDone v).
+Theorem C13_result_provenance : forall dc es e c v, wf_run dc spec0 (es ++ [e]) = true ->
+  In (OResult c v) (snd (step (Fix dc) (fst (run (Fix dc) init es)) e)) ->
+  (exists mb t, e = Result mb v /\ tom (fst (srun dc spec0 es)) mb = Some t
+                /\ owner (fst (srun dc spec0 es)) t = c /\ st (fst (srun dc spec0 es)) t = TRunning true)
+  \/ (exists t, e = Request c t /\ owner (fst (srun dc spec0 es)) t = c /\ st (fst (srun dc spec0 es)) t = TDone v).
 Proof. exact result_provenance. Qed.
 
-Theorem C13_done_value : forall sp e t v, st (fst (sstep sp e)) t = TDone v ->
+Theorem C13_done_value : forall dc sp e t v, st (fst (sstep dc sp e)) t = TDone v ->
   st sp t = TDone v \/ exists mb, e = Result mb v /\ tom sp mb = Some t.
 Proof. exact done_value_spec. Qed.
 
 (* the client raises on ERROR and drops its connection (checked on the real Compiler by the
    harness); after the server has seen that disconnect nothing - in particular no RESULT - is
    addressed to that connection any more *)
-Theorem C13_silence_after_disconnect : forall es1 es2 c,
-  wf_run spec0 (es1 ++ Disconnect c :: es2) = true ->
-  forall o, In o (concat (snd (run true (fst (run true init (es1 ++ [Disconnect c]))) es2))) -> dest o <> Some c.
+Theorem C13_silence_after_disconnect : forall dc es1 es2 c,
+  wf_run dc spec0 (es1 ++ Disconnect c :: es2) = true ->
+  forall o, In o (concat (snd (run (Fix dc) (fst (run (Fix dc) init (es1 ++ [Disconnect c]))) es2))) -> dest o <> Some c.
 Proof. exact silence_after_disconnect. Qed.
+
+(* with fixes/C13-D15.patch (dc = true) a cancelled compilation is forgotten at once: an ERROR / LOG
+   that arrives for it later produces no output (specification level: its mailbox is unknown) *)
+Theorem C13_cancelled_forgotten : forall sp c t, own_open sp c t = true ->
+  tom (fst (sstep true sp (Cancel c t))) (mbx sp t) = None
+  /\ st (fst (sstep true sp (Cancel c t))) t = TUnknown.
+Proof.
+  intros sp c t O. simpl. rewrite O. simpl. unfold upd. rewrite !Nat.eqb_refl. auto.
+Qed.
 
 (* ------------------------------------------------------------------ non-vacuity *)
 Definition ex_hist : list event :=
@@ -141,40 +153,50 @@ Definition ex_hist : list event :=
    Result 2 5; Connect 2; Request 2 1; Request 1 1; Status 1 1; Error 1 8; Disconnect 0; Log 2 1].
 
 (* the hypotheses are satisfiable by a three-client history that visits all five states, and the
-   conclusions are not trivially empty: the answers are these *)
-Example C13_refine_nonvacuous :
-  wf_run spec0 ex_hist = true
-  /\ map answers (snd (run true init ex_hist)) =
+   conclusions are not trivially empty: the answers are these (same in both repaired variants) *)
+Example C13_refine_nonvacuous : forall dc,
+  wf_run dc spec0 ex_hist = true
+  /\ map answers (snd (run (Fix dc) init ex_hist)) =
      [[]; []; []; []; []; [OError 1 9]; [OStatus 0 RUNNING]; []; [OResult 0 4]; [OStatus 0 UNKNOWN];
       [OCancelAck 0]; [OStatus 1 UNKNOWN]; [OCancelAck 1]; []; [OStatus 1 DONE]; [OCancelAck 0]; [];
       []; [OErrUnknown 2]; [OResult 1 6]; [OStatus 1 UNKNOWN]; [OError 1 8]; []; []]
-  /\ tasks (fst (run true init ex_hist)) = [(1, (1, 1))].
+  /\ tasks (fst (run (Fix dc) init ex_hist)) = [(1, (1, 1))].
+Proof. intros []; vm_compute; repeat split. Qed.
+
+(* the two repaired variants differ exactly on late messages for a cancelled compilation *)
+Example C13_variants_differ :
+  map answers (snd (run (Fix false) init [Connect 0; Submit 0 0; Cancel 0 0; Error 0 5; Log 0 1; Status 0 0]))
+    = [[]; []; [OCancelAck 0]; [OError 0 5]; [OLog 0 1]; [OStatus 0 UNKNOWN]]
+  /\ map answers (snd (run (Fix true) init [Connect 0; Submit 0 0; Cancel 0 0; Error 0 5; Log 0 1; Status 0 0]))
+    = [[]; []; [OCancelAck 0]; []; []; [OStatus 0 UNKNOWN]]
+  /\ tasks (fst (run (Fix true) init [Connect 0; Submit 0 0; Cancel 0 0])) = []
+  /\ m2t (fst (run (Fix true) init [Connect 0; Submit 0 0; Cancel 0 0])) = [].
 Proof. vm_compute. repeat split. Qed.
 
 Example C13_partial_nonvacuous :
   d4_free spec0 [Connect 0; Connect 1; Submit 0 0; Submit 1 1; Status 0 0; Request 1 0; Result 0 4; Status 0 0;
                  Request 0 0; Request 0 0; Error 1 3] = true
-  /\ wf_run spec0 [Connect 0; Connect 1; Submit 0 0; Submit 1 1; Status 0 0; Request 1 0; Result 0 4; Status 0 0;
+  /\ wf_run false spec0 [Connect 0; Connect 1; Submit 0 0; Submit 1 1; Status 0 0; Request 1 0; Result 0 4; Status 0 0;
                    Request 0 0; Request 0 0; Error 1 3] = true
   /\ d4_free spec0 [Connect 0; Submit 0 0; Result 0 7; Request 0 0; Status 0 0] = false.
 Proof. vm_compute. tauto. Qed.
 
-Example C13_isolation_nonvacuous :
-  wf_run spec0 ([Connect 0; Connect 1; Submit 0 0] ++ [Cancel 1 0]) = true
+Example C13_isolation_nonvacuous : forall dc,
+  wf_run dc spec0 ([Connect 0; Connect 1; Submit 0 0] ++ [Cancel 1 0]) = true
   /\ is_request (Cancel 1 0) 1 0
-  /\ own_open (fst (srun spec0 [Connect 0; Connect 1; Submit 0 0])) 1 0 = false
-  /\ step true (fst (run true init [Connect 0; Connect 1; Submit 0 0])) (Cancel 1 0)
-     = (fst (run true init [Connect 0; Connect 1; Submit 0 0]), [OCancelAck 1]).
-Proof. unfold is_request. vm_compute. tauto. Qed.
+  /\ own_open (fst (srun dc spec0 [Connect 0; Connect 1; Submit 0 0])) 1 0 = false
+  /\ step (Fix dc) (fst (run (Fix dc) init [Connect 0; Connect 1; Submit 0 0])) (Cancel 1 0)
+     = (fst (run (Fix dc) init [Connect 0; Connect 1; Submit 0 0]), [OCancelAck 1]).
+Proof. unfold is_request. intros []; vm_compute; tauto. Qed.
 
-Example C13_error_nonvacuous :
-  wf_run spec0 [Connect 0; Connect 1; Submit 1 3] = true
-  /\ snd (step true (fst (run true init [Connect 0; Connect 1; Submit 1 3])) (Error 0 5)) = [OError 1 5]
-  /\ snd (step true (fst (run true init [Connect 0; Connect 1; Submit 1 3])) (Error 4 5)) = [].
-Proof. vm_compute. tauto. Qed.
+Example C13_error_nonvacuous : forall dc,
+  wf_run dc spec0 [Connect 0; Connect 1; Submit 1 3] = true
+  /\ snd (step (Fix dc) (fst (run (Fix dc) init [Connect 0; Connect 1; Submit 1 3])) (Error 0 5)) = [OError 1 5]
+  /\ snd (step (Fix dc) (fst (run (Fix dc) init [Connect 0; Connect 1; Submit 1 3])) (Error 4 5)) = [].
+Proof. intros []; vm_compute; tauto. Qed.
 
-Example C13_silence_nonvacuous :
-  wf_run spec0 ([Connect 0; Submit 0 0; Request 0 0; Error 0 2] ++ Disconnect 0 :: [Result 0 1; Error 0 3]) = true
-  /\ snd (run true (fst (run true init ([Connect 0; Submit 0 0; Request 0 0; Error 0 2] ++ [Disconnect 0])))
+Example C13_silence_nonvacuous : forall dc,
+  wf_run dc spec0 ([Connect 0; Submit 0 0; Request 0 0; Error 0 2] ++ Disconnect 0 :: [Result 0 1; Error 0 3]) = true
+  /\ snd (run (Fix dc) (fst (run (Fix dc) init ([Connect 0; Submit 0 0; Request 0 0; Error 0 2] ++ [Disconnect 0])))
                [Result 0 1; Error 0 3]) = [[]; []].
-Proof. vm_compute. tauto. Qed.
+Proof. intros []; vm_compute; tauto. Qed.
